@@ -5,9 +5,11 @@ mkdir -p .work evidence
 command -v java >/dev/null || { echo "java missing" >&2; exit 1; }
 [ -x /venv/bin/python ] || { echo "/venv/bin/python missing" >&2; exit 1; }
 rc=0
+tmp="$(pwd)/.work/sany_tmp"; mkdir -p "$tmp"
 for f in spec/*.tla; do
-  out=$(cd spec && java -cp /opt/veriftools/tla/tla2tools.jar:/opt/veriftools/tla/CommunityModules-deps.jar tla2sany.SANY "$(basename "$f")" 2>&1)
+  out=$(cd spec && java -Djava.io.tmpdir="$tmp" -cp /opt/veriftools/tla/tla2tools.jar:/opt/veriftools/tla/CommunityModules-deps.jar tla2sany.SANY "$(basename "$f")" 2>&1)
   if echo "$out" | grep -qi "error\|abort"; then echo "SANY failed on $f"; echo "$out" | tail -20; rc=1; fi
 done
+rm -rf "$tmp"
 [ $rc -eq 0 ] && echo "setup ok: $(ls spec/*.tla | wc -l) TLA+ modules parsed"
 exit $rc
